@@ -4,7 +4,7 @@
     WHICH candidates an atom produces (all occurrences / engine matches, each matching at its position)
     is the subject of C01; here it appears as the hypothesis on the candidate list. *)
 From ZV Require Import Lib.Base Lib.GoSearch Lib.RuneCount Model.Lines Model.Ranges
-  Proofs.LinesMatch Proofs.LinesBreakCover Proofs.RangesLineMode Proofs.RangesGather Proofs.RangesOffsets Proofs.RangesFind Generated.RangesConsts.
+  Proofs.RuneCountProofs Proofs.LinesMatch Proofs.LinesChunk Proofs.LinesBreakCover Proofs.RangesLineMode Proofs.RangesGather Proofs.RangesOffsets Proofs.RangesFind Proofs.RangesBoundary Generated.RangesConsts.
 From ZV Require Lib.Utf8.
 From Coq Require Import Sorting.Sorted Sorting.Permutation.
 
@@ -114,6 +114,20 @@ Theorem C02_regexp_line_mode : forall nl c name ctx ms, (0 <= ctx)%Z ->
 Proof. exact regexp_line_mode. Qed.
 Print Assumptions C02_regexp_line_mode.
 
+(** CHUNK MODE END TO END (model level): gatherMatches followed by fillChunkMatches.  Under the hypothesis of the C03
+    chunk theorem (kept content ranges in bounds, on rune boundaries of their lines: [chunk_cand_ok]) the Ranges of the
+    reported chunks are, in order, exactly the kept content ranges — byte offsets c_off/c_end with C03's line numbers
+    and rune columns ([range_spec]); nothing is split, dropped or added; with C02_regexp_ranges_are_engine_matches: for a
+    single regexp the chunk ranges are exactly the engine's matches *)
+Theorem C02_chunk_mode_ranges : forall nl c name ctx cands, (0 <= ctx)%Z ->
+  filter is_content (gather nl cands) <> [] ->
+  Forall (chunk_cand_ok c) (filter is_content (gather nl cands)) ->
+  exists res, fill_chunk_matches (newlines_of c) c name ctx (gather nl cands) = Ok res /\
+    flat_map cm_ranges res = map (range_spec c) (filter is_content (gather nl cands)) /\
+    Forall (fun cm => cm_fn cm = false) res.
+Proof. exact chunk_mode_ranges. Qed.
+Print Assumptions C02_chunk_mode_ranges.
+
 (** RUNE -> BYTE TRANSLATION, FULL: for every corpus [pre ++ doc :: post] indexed by one builder (the builder's sampling
     in newSearchableString, one sample per runeOffsetFrequency runes of the corpus-global rune index, each document
     decoded on its own), the table compressed by makeRuneOffsetMap, runeOffsetMap.lookup with Go's binary search and the
@@ -142,6 +156,19 @@ Theorem C02_rune_to_byte_is_boundary : forall (filename : bool) plain pre doc po
               (pre ++ doc :: post) tail (length pre) r = Ok b /\ Utf8.RB doc b /\ b < length doc.
 Proof. exact find_offset_repo_boundary. Qed.
 Print Assumptions C02_rune_to_byte_is_boundary.
+
+(** link to C03: seen from the start of its line, every offset findOffset produces is a [boundary] of the line's decoding —
+    the START half of the hypothesis [cand_bnd] of C03_chunk_matches / C03_column_cache_correct (the END half, start +
+    byteMatchSz of a verified match, is C01's matchContent) *)
+Theorem C02_match_starts_meet_column_hypothesis : forall (filename : bool) plain pre doc post tail r,
+  (plain = true -> forallb (fun b => (b <? 128)%N) doc = true) ->
+  r < Utf8.rune_count doc ->
+  exists b, find_offset_corpus rune_offset_frequency (if filename then @None nat else content_window) plain
+              (pre ++ doc :: post) tail (length pre) r = Ok b /\
+    let nls := newlines_of doc in
+    boundary (skipn (line_start nls (at_offset nls b)) doc) (b - line_start nls (at_offset nls b)).
+Proof. exact find_offset_start_cand_bnd. Qed.
+Print Assumptions C02_match_starts_meet_column_hypothesis.
 
 (** table part on its own, for EVERY list of samples (not only those a builder produces) and every compression:
     lookup(makeRuneOffsetMap(samples), k*freq + left) = (samples[k], left), including offsets exactly on
@@ -219,6 +246,24 @@ Example ex_regexp_line_mode :
     (match fill_matches (newlines_of c) c [102]%N 0%Z (gather 1 ms) with Ok r => Some r | _ => None end)
   = Some [ (1%Z, [(1, 1)]); (3%Z, [(4, 2); (6, 1)]) ].
 Proof. split; [split; repeat constructor; simpl; lia | vm_compute; reflexivity]. Qed.
+
+(* chunk mode: "ab\ncd", candidates "b" [1,2), "b\nc" [1,4) and "d" [4,5): kept [1,4) and [4,5), both on rune boundaries *)
+Example ex_chunk_mode :
+  let c := [97; 98; 10; 99; 100]%N in
+  let cands := [ {| c_fn := false; c_off := 1; c_sz := 1 |}; {| c_fn := false; c_off := 1; c_sz := 3 |};
+                 {| c_fn := false; c_off := 4; c_sz := 1 |} ] in
+  filter is_content (gather 1 cands) = [ {| c_fn := false; c_off := 1; c_sz := 3 |}; {| c_fn := false; c_off := 4; c_sz := 1 |} ] /\
+  Forall (chunk_cand_ok c) (filter is_content (gather 1 cands)) /\
+  option_map (flat_map (fun cm => map (fun r => (l_off (fst r), l_off (snd r))) (cm_ranges cm)))
+    (match fill_chunk_matches (newlines_of c) c [102]%N 0%Z (gather 1 cands) with Ok r => Some r | _ => None end)
+  = Some [(1, 4); (4, 5)].
+Proof.
+  cbv zeta. split; [reflexivity|]. split; [|vm_compute; reflexivity].
+  assert (B : forall b0 r k k', k' = rune_width b0 r + k -> boundary (skipn (rune_width b0 r - 1) r) k -> boundary (b0 :: r) k')
+    by (intros; subst; now constructor).
+  repeat constructor; simpl; try lia;
+    repeat first [ apply bd_zero | apply (B _ _ 0); [reflexivity|simpl] | apply (B _ _ 1); [reflexivity|simpl] ].
+Qed.
 
 (* "aa" in "aaaaa": occurrences at 0,1,2,3; leftmost non-overlapping = 0,2 *)
 Example ex_leftmost :
